@@ -28,6 +28,7 @@ func runC15(c *Ctx) {
 	c.rule("U3", "linkFlagKeysToStructureKeys: a set flag is written with Set(); the default of an unset flag is forced only where the structure key is empty", 2)
 	c.rule("U9", "the reporting side (the names listed, the name a validation error gives) replaces the configuration key separator in the prefix too, like the session's key replacer", 2)
 	c.rule("U10", "a validation error records the enclosing field in front of the path gathered so far, for the structure path and for the variable-name path alike (the error travels from the innermost structure outwards)", 2)
+	c.rule("U11", "a set of flags bound to one key yields a value some flag was explicitly given whenever there is one: the value of a flag nobody set is returned only where the list of explicit values was found empty", 1)
 	c.rule("U8", "ValidateEmbedded calls Validate() on every field of struct kind that implements Validator, whatever the field holds, and returns its error", 1)
 	c.rule("U6", "names with an empty prefix: prefix and separator are joined only where the prefix was found non-empty", 2)
 	c.rule("U7", "structure keys are linked to flag keys without prefix removal", 1)
@@ -414,6 +415,81 @@ func runC15(c *Ctx) {
 			c.check(good, "U10", fname(rf)+"/"+fieldName, c.ipos(st), "enclosing field recorded in front of the gathered path", why)
 		})
 		c.Extra["recorded_paths"] = n
+	}
+
+	// ---- U11 ----------------------------------------------------------------
+	// "in decreasing priority, an explicitly set command-line flag bound to it, …": for a set of flags (BindFlagsToEnv) the
+	// value viper is given is one of the values explicitly set — the current value of whichever flag comes last, set or
+	// not, only when nothing was set. HasChanged() makes the value an override, so a wrong answer here beats every source.
+	if vs := c.fn(cfgPkg, "(*multiFlags).ValueString"); vs != nil {
+		c.FuncsSeen[fname(vs)] = true
+		// the list of explicit values: the slice an element of which is returned
+		var explicit ssa.Value
+		allInstrs(vs, func(in ssa.Instruction) {
+			r, ok := in.(*ssa.Return)
+			if !ok || len(r.Results) != 1 {
+				return
+			}
+			if u, ok := r.Results[0].(*ssa.UnOp); ok && u.Op == token.MUL {
+				if ia, ok := u.X.(*ssa.IndexAddr); ok {
+					explicit = ia.X
+				}
+			}
+		})
+		key := fname(vs) + "/explicit-values-first"
+		if explicit == nil {
+			c.violate("U11", key, c.pos(vs.Pos()), "ValueString never returns one of the values explicitly set")
+		} else {
+			var lens []ssa.Value
+			allInstrs(vs, func(in ssa.Instruction) {
+				if cl, ok := in.(*ssa.Call); ok && calleeFull(&cl.Call) == "builtin.len" && sameValue(cl.Call.Args[0], explicit) {
+					lens = append(lens, cl)
+				}
+			})
+			bad := ""
+			allInstrs(vs, func(in ssa.Instruction) {
+				r, ok := in.(*ssa.Return)
+				if !ok || len(r.Results) != 1 {
+					return
+				}
+				type edge struct {
+					v    ssa.Value
+					pred *ssa.BasicBlock
+				}
+				var edges []edge
+				if phi, ok := r.Results[0].(*ssa.Phi); ok && phi.Block() == r.Block() {
+					for i, e := range phi.Edges {
+						edges = append(edges, edge{e, r.Block().Preds[i]})
+					}
+				} else {
+					for _, p := range r.Block().Preds {
+						edges = append(edges, edge{r.Results[0], p})
+					}
+				}
+				for _, e := range edges {
+					fromExplicit := false
+					if u, ok := e.v.(*ssa.UnOp); ok && u.Op == token.MUL {
+						if ia, ok := u.X.(*ssa.IndexAddr); ok && sameValue(ia.X, explicit) {
+							fromExplicit = true
+						}
+					}
+					if fromExplicit {
+						continue
+					}
+					empty := false
+					for _, l := range lens {
+						if g := guardsOnEdge(l, e.pred, r.Block()); g.hasHi && g.hi.Sign() <= 0 {
+							empty = true
+						}
+					}
+					if !empty {
+						bad = c.ipos(r)
+					}
+				}
+			})
+			c.check(bad == "" && len(lens) > 0, "U11", key, c.pos(vs.Pos()), "another value than an explicit one is returned only where there is none",
+				"the return at "+bad+" yields a value that is not one of those explicitly set although the list of explicit values may hold some: with two flags of the set given different values and a third left alone, the field receives the default of the flag nobody set — as an override, which beats the environment, the file and the defaults")
+		}
 	}
 
 	// ---- U7 -----------------------------------------------------------------
